@@ -41,9 +41,10 @@ var (
 	errC17BadSig = errors.New("c17: stub signature invalid")
 	errC17Rlp    = errors.New("c17: stub rlp error")
 
-	c17Body    []byte // body handed to rlp.NewStream by decodePacket (engine only)
-	c17BodySet bool
-	c17EncBody []byte // body written by the rlp.Encode stub (engine only)
+	c17Body     []byte // body handed to rlp.NewStream by decodePacket (engine only)
+	c17BodySet  bool
+	c17DecodeOK bool   // the typed-decoder stub reported success (engine only)
+	c17EncBody  []byte // body written by the rlp.Encode stub (engine only)
 )
 
 // ---- engine-only stubs -----------------------------------------------------
@@ -74,6 +75,7 @@ func c17NewStream(r io.Reader, limit uint64) *rlp.Stream {
 
 func c17StreamDecode(s *rlp.Stream, val interface{}) error {
 	if vs.Bool("rlp_body_ok") {
+		c17DecodeOK = true
 		return nil
 	}
 	return errC17Rlp
@@ -268,7 +270,11 @@ func VerifC17_EncodeDecode() {
 	default:
 		req = &neighbors{Expiration: vs.U64("exp")}
 	}
-	pkt, hash, err := encodePacket(netcompat, c17TestKey(), ptype, req)
+	priv := new(btcec.PrivateKey) // engine: never inspected (crypto.Sign is a stub)
+	if !vs.Symbolic() {
+		priv = c17TestKey()
+	}
+	pkt, hash, err := encodePacket(netcompat, priv, ptype, req)
 	vs.Assert(err == nil, "encodePacket succeeds")
 	vs.Assert(len(pkt) >= headSize+1 && pkt[headSize] == ptype, "type byte follows hash and signature")
 	vs.Assert(bytes.Equal(hash, pkt[:macSize]), "returned hash is the packet prefix")
@@ -361,7 +367,7 @@ func VerifC17_HandlePacket() {
 	vs.Reach("dispatched")
 	vs.Assert(sp.hashOK, "handler only after the hash matched")
 	vs.Assert(sp.sigOK, "handler only after signature recovery")
-	vs.Assert(c17BodySet, "handler only after the typed decoder ran")
+	vs.Assert(c17BodySet && c17DecodeOK, "handler only after the typed decoder accepted the body")
 	vs.Assert(c17Handled.id == sp.wantID, "handler gets the recovered sender")
 	vs.Assert(bytes.Equal(c17Handled.mac, sp.sentHash), "handler gets the transmitted hash")
 	vs.Assert(c17Handled.kind == c17Kind(netcompat, sp.wire), "handler of the named packet type")
@@ -371,17 +377,28 @@ func VerifC17_HandlePacket() {
 
 var c17NowSec int64
 
-// engine-only: time.Now / time.Since are redirected here (symbolic clock)
-func c17Now() time.Time                  { return time.Unix(c17NowSec, 0) }
-func c17Since(t time.Time) time.Duration { return c17Now().Sub(t) }
+// engine-only: time.Now / time.Since are redirected here (symbolic clock with
+// one-second resolution).  c17Since keeps only what expired() depends on, the
+// sign of now - t (the exact saturating nanosecond arithmetic of time.Sub is
+// 64-bit multiplication with overflow checks, which the solver cannot decide).
+func c17Now() time.Time { return time.Unix(c17NowSec, 0) }
+func c17Since(t time.Time) time.Duration {
+	u := t.Unix()
+	switch {
+	case u > c17NowSec:
+		return -time.Second
+	case u == c17NowSec:
+		return 0
+	}
+	return time.Second
+}
 
 // VerifC17_Expired: expired(ts) accepts exactly the timestamps strictly in the
 // future of the clock (ts read as int64 seconds), for every ts and every clock
-// value within +-2^40 s of the epoch.
+// value.
 func VerifC17_Expired() {
 	ts := vs.U64("ts")
 	now := vs.I64("now")
-	vs.Assume(now > -(1<<40) && now < 1<<40)
 	if !vs.Symbolic() {
 		now = time.Now().Unix()
 	}
